@@ -328,7 +328,8 @@ pub fn eval(rules: &RuleSet, fs: &Fs) -> Eval
                 },
                 None =>
                 {
-                    if !fs.is_file(s)
+                    // a declared source may be a directory (its hash covers every name and content below it)
+                    if !fs.is_file(s) && !fs.is_dir(s)
                     {
                         missing.insert(s.clone());
                         cancelled = true;
